@@ -2,12 +2,14 @@
 # tools/seedall.sh [name-prefix] : regression over every stored seeded change.  Works on a scratch worktree (PYVC_REPO), never on /repo:
 # applies seeded/<name>/patch.diff there, runs ./check <PROP> with scratch evidence, reverts, and records the verdict in meta.json
 # ("our_check" = current verdict; the first recorded verdict is kept as "our_check_initial" when it differs).
+# SEEDLIST=<file with seed names, one per line> restricts the run to those (used by tools/seedall_par.sh to run shards in parallel).
 cd "$(dirname "$0")/.."
 WT=/tmp/seedall_wt_$$
 git -C /repo worktree add --detach $WT HEAD >/dev/null 2>&1 || exit 9
 cp /repo/molli_xt*.so $WT/
 export PYVC_REPO=$WT PYVC_SCRATCH_EVIDENCE=1
-for d in seeded/${1:-}*/; do
+if [ -n "$SEEDLIST" ]; then DIRS=$(sed 's|^|seeded/|; s|$|/|' "$SEEDLIST"); else DIRS=$(ls -d seeded/${1:-}*/); fi
+for d in $DIRS; do
   n=$(basename $d); prop=${n%%_*}
   git -C $WT apply $(pwd)/$d/patch.diff 2>/dev/null || { echo "$n: patch does not apply to the current tree"; continue; }
   ./check $prop > /tmp/seedall_out_$$ 2>&1; c=$?
